@@ -779,6 +779,7 @@ int MacrosIter::next()
     }
 
     memory_pool = memory_pool->next;
+    ptr = 0;
   }
 
   is_done = true;
